@@ -15,6 +15,7 @@ import (
 	"github.com/nsqio/nsq/internal/lg"
 	"github.com/nsqio/nsq/internal/pqueue"
 	"github.com/nsqio/nsq/internal/quantile"
+	"github.com/nsqio/nsq/internal/verif"
 )
 
 type Consumer interface {
@@ -142,11 +143,13 @@ func (c *Channel) initPQ() {
 	pqSize := int(math.Max(1, float64(c.nsqd.getOpts().MemQueueSize)/10))
 
 	c.inFlightMutex.Lock()
+	verif.Ev("IFReset", "c", vc(c), "n", len(c.inFlightMessages))
 	c.inFlightMessages = make(map[MessageID]*Message)
 	c.inFlightPQ = newInFlightPqueue(pqSize)
 	c.inFlightMutex.Unlock()
 
 	c.deferredMutex.Lock()
+	verif.Ev("DefReset", "c", vc(c), "n", len(c.deferredMessages))
 	c.deferredMessages = make(map[MessageID]*pqueue.Item)
 	c.deferredPQ = pqueue.New(pqSize)
 	c.deferredMutex.Unlock()
@@ -174,6 +177,8 @@ func (c *Channel) exit(deleted bool) error {
 	if !atomic.CompareAndSwapInt32(&c.exitFlag, 0, 1) {
 		return errors.New("exiting")
 	}
+	verif.Ev("CExit", "c", vc(c), "deleted", deleted)
+	verif.Yield("chan.exit.flag", vc(c))
 
 	if deleted {
 		c.nsqd.logf(LOG_INFO, "CHANNEL(%s): deleting", c.name)
@@ -191,26 +196,32 @@ func (c *Channel) exit(deleted bool) error {
 		client.Close()
 	}
 	c.RUnlock()
+	verif.Yield("chan.exit.clientsClosed", vc(c))
 
 	if deleted {
 		// empty the queue (deletes the backend files, too)
 		c.Empty()
+		verif.Ev("CDeleted", "c", vc(c))
 		return c.backend.Delete()
 	}
 
 	// write anything leftover to disk
 	c.flush()
+	verif.Ev("CClosed", "c", vc(c))
 	return c.backend.Close()
 }
 
 func (c *Channel) Empty() error {
 	c.Lock()
 	defer c.Unlock()
+	verif.Ev("EmptyBegin", "c", vc(c))
 
 	c.initPQ()
+	verif.Yield("empty.afterReset", vc(c))
 	for _, client := range c.clients {
 		client.Empty()
 	}
+	verif.Yield("empty.afterClients", vc(c))
 
 	for {
 		select {
@@ -223,7 +234,9 @@ func (c *Channel) Empty() error {
 	}
 
 finish:
-	return c.backend.Empty()
+	err := c.backend.Empty()
+	verif.Ev("EmptyEnd", "c", vc(c))
+	return err
 }
 
 // flush persists all the messages in internal memory buffers to the backend
@@ -248,6 +261,7 @@ func (c *Channel) flush() error {
 			}
 		case msg := <-c.memoryMsgChan:
 			err := writeMessageToBackend(msg, c.backend)
+			verif.Ev("CFlush", "c", vc(c), "id", vid(msg.ID), "src", "mem", "ok", err == nil)
 			if err != nil {
 				c.nsqd.logf(LOG_ERROR, "failed to write message to backend - %s", err)
 			}
@@ -257,9 +271,11 @@ func (c *Channel) flush() error {
 	}
 
 finish:
+	verif.Yield("chan.flush.afterMem", vc(c))
 	c.inFlightMutex.Lock()
 	for _, msg := range c.inFlightMessages {
 		err := writeMessageToBackend(msg, c.backend)
+		verif.Ev("CFlush", "c", vc(c), "id", vid(msg.ID), "src", "inflight", "ok", err == nil)
 		if err != nil {
 			c.nsqd.logf(LOG_ERROR, "failed to write message to backend - %s", err)
 		}
@@ -270,6 +286,7 @@ finish:
 	for _, item := range c.deferredMessages {
 		msg := item.Value.(*Message)
 		err := writeMessageToBackend(msg, c.backend)
+		verif.Ev("CFlush", "c", vc(c), "id", vid(msg.ID), "src", "deferred", "ok", err == nil)
 		if err != nil {
 			c.nsqd.logf(LOG_ERROR, "failed to write message to backend - %s", err)
 		}
@@ -292,6 +309,7 @@ func (c *Channel) UnPause() error {
 }
 
 func (c *Channel) doPause(pause bool) error {
+	verif.Ev("CPauseBegin", "c", vc(c), "p", pause)
 	if pause {
 		atomic.StoreInt32(&c.paused, 1)
 	} else {
@@ -307,6 +325,7 @@ func (c *Channel) doPause(pause bool) error {
 		}
 	}
 	c.RUnlock()
+	verif.Ev("CPauseEnd", "c", vc(c), "p", pause)
 	return nil
 }
 
@@ -326,10 +345,12 @@ func (c *Channel) PutMessage(m *Message) error {
 		return err
 	}
 	atomic.AddUint64(&c.messageCount, 1)
+	verif.Ev("CRecv", "c", vc(c), "id", vid(m.ID), "def", false, "now", int64(0))
 	return nil
 }
 
 func (c *Channel) put(m *Message) error {
+	verif.Ev("CPutBegin", "c", vc(c), "id", vid(m.ID), "att", m.Attempts)
 	if c.topologyAwareConsumption {
 		// Attempt zone local, region local and finally the memory channel
 		// we do this to ensure that we preferentially deliver messages based on toplogy
@@ -339,23 +360,29 @@ func (c *Channel) put(m *Message) error {
 		// attempt a higher priority channel can still win
 		select {
 		case c.zoneLocalMsgChan <- m:
+			verif.Ev("CPutEnd", "c", vc(c), "id", vid(m.ID), "where", "zone", "ok", true)
 			return nil
 		default:
 		}
 		select {
 		case c.zoneLocalMsgChan <- m:
+			verif.Ev("CPutEnd", "c", vc(c), "id", vid(m.ID), "where", "zone", "ok", true)
 			return nil
 		case c.regionLocalMsgChan <- m:
+			verif.Ev("CPutEnd", "c", vc(c), "id", vid(m.ID), "where", "region", "ok", true)
 			return nil
 		default:
 		}
 
 		select {
 		case c.zoneLocalMsgChan <- m:
+			verif.Ev("CPutEnd", "c", vc(c), "id", vid(m.ID), "where", "zone", "ok", true)
 			return nil
 		case c.regionLocalMsgChan <- m:
+			verif.Ev("CPutEnd", "c", vc(c), "id", vid(m.ID), "where", "region", "ok", true)
 			return nil
 		case c.memoryMsgChan <- m:
+			verif.Ev("CPutEnd", "c", vc(c), "id", vid(m.ID), "where", "mem", "ok", true)
 			return nil
 		default:
 		}
@@ -364,12 +391,14 @@ func (c *Channel) put(m *Message) error {
 
 		select {
 		case c.memoryMsgChan <- m:
+			verif.Ev("CPutEnd", "c", vc(c), "id", vid(m.ID), "where", "mem", "ok", true)
 			return nil
 		default:
 		}
 	}
 
 	err := writeMessageToBackend(m, c.backend)
+	verif.Ev("CPutEnd", "c", vc(c), "id", vid(m.ID), "where", "disk", "ok", err == nil)
 	c.nsqd.SetHealth(err)
 	if err != nil {
 		c.nsqd.logf(LOG_ERROR, "CHANNEL(%s): failed to write message to backend - %s",
@@ -381,6 +410,7 @@ func (c *Channel) put(m *Message) error {
 
 func (c *Channel) PutMessageDeferred(msg *Message, timeout time.Duration) {
 	atomic.AddUint64(&c.messageCount, 1)
+	verif.Ev("CRecv", "c", vc(c), "id", vid(msg.ID), "def", true, "now", time.Now().UnixNano())
 	c.StartDeferredTimeout(msg, timeout)
 }
 
@@ -390,7 +420,9 @@ func (c *Channel) TouchMessage(clientID int64, id MessageID, clientMsgTimeout ti
 	if err != nil {
 		return err
 	}
+	verif.Yield("touch.afterPop", clientID)
 	c.removeFromInFlightPQ(msg)
+	verif.Yield("touch.afterHeapRem", clientID)
 
 	newTimeout := time.Now().Add(clientMsgTimeout)
 	if newTimeout.Sub(msg.deliveryTS) >=
@@ -400,10 +432,12 @@ func (c *Channel) TouchMessage(clientID int64, id MessageID, clientMsgTimeout ti
 	}
 
 	msg.pri = newTimeout.UnixNano()
+	verif.Ev("TouchCalc", "c", vc(c), "id", vid(msg.ID), "k", clientID, "pri", msg.pri, "dts", msg.deliveryTS.UnixNano(), "now", time.Now().UnixNano(), "tmo", int64(clientMsgTimeout), "max", int64(c.nsqd.getOpts().MaxMsgTimeout))
 	err = c.pushInFlightMessage(msg)
 	if err != nil {
 		return err
 	}
+	verif.Yield("touch.afterPush", clientID)
 	c.addToInFlightPQ(msg)
 	return nil
 }
@@ -414,7 +448,9 @@ func (c *Channel) FinishMessage(clientID int64, id MessageID) error {
 	if err != nil {
 		return err
 	}
+	verif.Yield("fin.afterPop", clientID)
 	c.removeFromInFlightPQ(msg)
+	verif.Ev("FinDone", "c", vc(c), "id", vid(msg.ID), "k", clientID)
 	if c.e2eProcessingLatencyStream != nil {
 		c.e2eProcessingLatencyStream.Insert(msg.Timestamp)
 	}
@@ -433,12 +469,16 @@ func (c *Channel) RequeueMessage(clientID int64, id MessageID, timeout time.Dura
 	if err != nil {
 		return err
 	}
+	verif.Yield("req.afterPop", clientID)
 	c.removeFromInFlightPQ(msg)
 	atomic.AddUint64(&c.requeueCount, 1)
+	verif.Ev("ReqStart", "c", vc(c), "id", vid(msg.ID), "k", clientID, "delay", int64(timeout), "now", time.Now().UnixNano())
+	verif.Yield("req.beforePut", clientID)
 
 	if timeout == 0 {
 		c.exitMutex.RLock()
 		if c.Exiting() {
+			verif.Ev("ReqExiting", "c", vc(c), "id", vid(msg.ID), "k", clientID)
 			c.exitMutex.RUnlock()
 			return errors.New("exiting")
 		}
@@ -476,6 +516,7 @@ func (c *Channel) AddClient(clientID int64, client Consumer) error {
 
 	c.Lock()
 	c.clients[clientID] = client
+	verif.Ev("KSub", "k", clientID, "c", vc(c), "n", len(c.clients))
 	c.Unlock()
 	return nil
 }
@@ -499,6 +540,7 @@ func (c *Channel) RemoveClient(clientID int64) {
 	c.Lock()
 	delete(c.clients, clientID)
 	numClients := len(c.clients)
+	verif.Ev("KUnsub", "k", clientID, "c", vc(c), "n", numClients)
 	c.Unlock()
 
 	if numClients == 0 && c.ephemeral {
@@ -511,10 +553,12 @@ func (c *Channel) StartInFlightTimeout(msg *Message, clientID int64, timeout tim
 	msg.clientID = clientID
 	msg.deliveryTS = now
 	msg.pri = now.Add(timeout).UnixNano()
+	verif.Ev("IFStart", "c", vc(c), "id", vid(msg.ID), "k", clientID, "pri", msg.pri, "dts", now.UnixNano(), "tmo", int64(timeout))
 	err := c.pushInFlightMessage(msg)
 	if err != nil {
 		return err
 	}
+	verif.Yield("sift.afterMapPush", clientID)
 	c.addToInFlightPQ(msg)
 	return nil
 }
@@ -522,10 +566,12 @@ func (c *Channel) StartInFlightTimeout(msg *Message, clientID int64, timeout tim
 func (c *Channel) StartDeferredTimeout(msg *Message, timeout time.Duration) error {
 	absTs := time.Now().Add(timeout).UnixNano()
 	item := &pqueue.Item{Value: msg, Priority: absTs}
+	verif.Ev("DefStart", "c", vc(c), "id", vid(msg.ID), "pri", absTs, "now", time.Now().UnixNano(), "delay", int64(timeout))
 	err := c.pushDeferredMessage(item)
 	if err != nil {
 		return err
 	}
+	verif.Yield("sdt.afterMapPush", vc(c))
 	c.addToDeferredPQ(item)
 	return nil
 }
@@ -535,10 +581,12 @@ func (c *Channel) pushInFlightMessage(msg *Message) error {
 	c.inFlightMutex.Lock()
 	_, ok := c.inFlightMessages[msg.ID]
 	if ok {
+		verif.Ev("IFPush", "c", vc(c), "id", vid(msg.ID), "k", msg.clientID, "att", msg.Attempts, "pri", msg.pri, "ok", false, "n", len(c.inFlightMessages))
 		c.inFlightMutex.Unlock()
 		return errors.New("ID already in flight")
 	}
 	c.inFlightMessages[msg.ID] = msg
+	verif.Ev("IFPush", "c", vc(c), "id", vid(msg.ID), "k", msg.clientID, "att", msg.Attempts, "pri", msg.pri, "ok", true, "n", len(c.inFlightMessages))
 	c.inFlightMutex.Unlock()
 	return nil
 }
@@ -548,14 +596,17 @@ func (c *Channel) popInFlightMessage(clientID int64, id MessageID) (*Message, er
 	c.inFlightMutex.Lock()
 	msg, ok := c.inFlightMessages[id]
 	if !ok {
+		verif.Ev("IFPop", "c", vc(c), "id", vid(id), "by", clientID, "owner", int64(0), "res", "notinflight", "n", len(c.inFlightMessages))
 		c.inFlightMutex.Unlock()
 		return nil, errors.New("ID not in flight")
 	}
 	if msg.clientID != clientID {
+		verif.Ev("IFPop", "c", vc(c), "id", vid(id), "by", clientID, "owner", msg.clientID, "res", "notowner", "n", len(c.inFlightMessages))
 		c.inFlightMutex.Unlock()
 		return nil, errors.New("client does not own message")
 	}
 	delete(c.inFlightMessages, id)
+	verif.Ev("IFPop", "c", vc(c), "id", vid(id), "by", clientID, "owner", msg.clientID, "res", "ok", "n", len(c.inFlightMessages), "now", time.Now().UnixNano())
 	c.inFlightMutex.Unlock()
 	return msg, nil
 }
@@ -563,6 +614,7 @@ func (c *Channel) popInFlightMessage(clientID int64, id MessageID) (*Message, er
 func (c *Channel) addToInFlightPQ(msg *Message) {
 	c.inFlightMutex.Lock()
 	c.inFlightPQ.Push(msg)
+	verif.Ev("IFHeapAdd", "c", vc(c), "id", vid(msg.ID), "idx", msg.index, "n", len(c.inFlightPQ))
 	c.inFlightMutex.Unlock()
 }
 
@@ -573,6 +625,7 @@ func (c *Channel) removeFromInFlightPQ(msg *Message) {
 		c.inFlightMutex.Unlock()
 		return
 	}
+	verif.Ev("IFHeapRem", "c", vc(c), "id", vid(msg.ID), "idx", msg.index, "n", len(c.inFlightPQ))
 	c.inFlightPQ.Remove(msg.index)
 	c.inFlightMutex.Unlock()
 }
@@ -583,10 +636,12 @@ func (c *Channel) pushDeferredMessage(item *pqueue.Item) error {
 	id := item.Value.(*Message).ID
 	_, ok := c.deferredMessages[id]
 	if ok {
+		verif.Ev("DefPush", "c", vc(c), "id", vid(id), "pri", item.Priority, "ok", false, "n", len(c.deferredMessages))
 		c.deferredMutex.Unlock()
 		return errors.New("ID already deferred")
 	}
 	c.deferredMessages[id] = item
+	verif.Ev("DefPush", "c", vc(c), "id", vid(id), "pri", item.Priority, "ok", true, "n", len(c.deferredMessages))
 	c.deferredMutex.Unlock()
 	return nil
 }
@@ -596,10 +651,12 @@ func (c *Channel) popDeferredMessage(id MessageID) (*pqueue.Item, error) {
 	// TODO: these map lookups are costly
 	item, ok := c.deferredMessages[id]
 	if !ok {
+		verif.Ev("DefPop", "c", vc(c), "id", vid(id), "ok", false, "n", len(c.deferredMessages))
 		c.deferredMutex.Unlock()
 		return nil, errors.New("ID not deferred")
 	}
 	delete(c.deferredMessages, id)
+	verif.Ev("DefPop", "c", vc(c), "id", vid(id), "ok", true, "n", len(c.deferredMessages))
 	c.deferredMutex.Unlock()
 	return item, nil
 }
@@ -622,6 +679,9 @@ func (c *Channel) processDeferredQueue(t int64) bool {
 	for {
 		c.deferredMutex.Lock()
 		item, _ := c.deferredPQ.PeekAndShift(t)
+		if item != nil {
+			verif.Ev("ScanDef", "c", vc(c), "id", vid(item.Value.(*Message).ID), "t", t, "pri", item.Priority, "now", time.Now().UnixNano())
+		}
 		c.deferredMutex.Unlock()
 
 		if item == nil {
@@ -653,17 +713,23 @@ func (c *Channel) processInFlightQueue(t int64) bool {
 	for {
 		c.inFlightMutex.Lock()
 		msg, _ := c.inFlightPQ.PeekAndShift(t)
+		if msg != nil {
+			verif.Ev("ScanIF", "c", vc(c), "id", vid(msg.ID), "t", t, "pri", msg.pri, "now", time.Now().UnixNano())
+		}
 		c.inFlightMutex.Unlock()
 
 		if msg == nil {
 			goto exit
 		}
 		dirty = true
+		verif.Yield("scan.afterPeek", vc(c))
 
 		_, err := c.popInFlightMessage(msg.clientID, msg.ID)
 		if err != nil {
 			goto exit
 		}
+		verif.Ev("ScanTimedOut", "c", vc(c), "id", vid(msg.ID), "k", msg.clientID)
+		verif.Yield("scan.afterPop", vc(c))
 		atomic.AddUint64(&c.timeoutCount, 1)
 		c.RLock()
 		client, ok := c.clients[msg.clientID]
